@@ -32,6 +32,7 @@ import PV.Driver.CoeffTableOps
 import PV.Driver.RewriteTableOps
 import PV.Driver.C18TableOps
 import PV.Driver.StrTableOps
+import PV.Driver.AnalysisHistOps
 /-
   Driver operations: one request S-expression in, one reply S-expression out.
 -/
@@ -236,6 +237,7 @@ def handlers : List (Sexp → Option Sexp) :=
    , handleRewriteTable
    , handleC18Table
    , handleStrTable
+   , handleAnalysisHist
    -- HANDLERS
   ]
 
